@@ -37,7 +37,7 @@ META = {
         "(exit 0); distinct by (model text, target)"
     ),
     "bounds": {
-        "quick": "stream d=1 reduced menus over the 8 common seeds (kitchen sink only in thorough); 45 shape models; regex strings L<=2",
+        "quick": "stream d=1 reduced menus over the 8 common seeds (kitchen sink only in thorough); 53 shape models (incl. an abstract class without descendants, a constrained bytearray); regex strings L<=2",
         "thorough": "stream d=1 full menus; shape models; regex strings L<=3",
     },
     "assumptions": [
@@ -124,6 +124,12 @@ def check_text(text: str, seed: str, info: Any) -> Tuple[List[Violation], int, i
         model_path = stream.write_model(base, text)
         observation = stream.load(model_path)
         if observation.stage != "accepted":
+            if isinstance(info, dict) and ("shape" in info or "constraints" in info):
+                # the constructive models are meant to be accepted: a rejection would make
+                # this part of the space vacuous without anybody noticing
+                raise AssertionError(
+                    f"constructive model rejected ({info}): {(observation.error or '')[-200:]}"
+                )
             return [], 0, 0
         assert observation.result is not None
         symbol_table, atok = observation.result
